@@ -258,3 +258,83 @@ func (c *Ctx) ErrFlow(rule string, m M, pkgOK func(path string) bool, exceptions
 	}
 	return n
 }
+
+// ErrOverwrite (E9b): an error held in a local variable is not overwritten by the result of
+// another call while it may still be non-nil: `_, err = w.Write(tail)` after a loop that can
+// leave a write error in err replaces the failure by a later success. At every store of a call's
+// error result into a local error variable, the variable is known to be nil (fresh, tested nil,
+// or the non-nil edge left the path), unless the stored value is computed from the variable
+// itself (firstError(err, …), Wrap(err)).
+func (c *Ctx) ErrOverwrite(rule string, pkgOK func(path string) bool, exceptions map[string]string) int {
+	n := 0
+	for _, fn := range c.P.AllFuncs {
+		if fn.Origin() != nil || (fn.Synthetic != "" && fn.Parent() == nil) || len(fn.Blocks) == 0 {
+			continue
+		}
+		top := TopLevel(fn)
+		if top.Pkg == nil || !pkgOK(top.Pkg.Pkg.Path()) {
+			continue
+		}
+		// candidate stores
+		var stores []*ssa.Store
+		for _, b := range fn.Blocks {
+			for _, in := range b.Instrs {
+				st, ok := in.(*ssa.Store)
+				if !ok || !isErrorType(st.Val.Type()) {
+					continue
+				}
+				al, ok := st.Addr.(*ssa.Alloc)
+				if !ok {
+					continue
+				}
+				fromCall, fromSelf := false, false
+				// `return x, err` in a function with named results and defers re-stores the
+				// variable's own value: not an overwrite
+				if copyOf(st.Val, func(v ssa.Value) bool { return cellOfLoad(v) == ssa.Value(al) }, 3) {
+					continue
+				}
+				for _, leaf := range errLeaves(st.Val) {
+					switch x := leaf.(type) {
+					case *ssa.Call:
+						fromCall = true
+						// computed from the variable itself?
+						for _, a := range x.Common().Args {
+							if len(derivesFrom(a, func(v ssa.Value) bool { return cellOfLoad(v) == ssa.Value(al) }, 4)) > 0 {
+								fromSelf = true
+							}
+						}
+					}
+				}
+				if fromCall && !fromSelf {
+					stores = append(stores, st)
+				}
+			}
+		}
+		if len(stores) == 0 {
+			continue
+		}
+		fl := NewFlow(c.P)
+		fl.MaxDepth = 0
+		res := fl.Analyze(fn, emptyState())
+		for _, st := range stores {
+			s := res.stateBefore(st)
+			if s.top {
+				continue
+			}
+			n++
+			ok := s.has("nil:cell:" + st.Addr.Name())
+			detail := ""
+			key := shortKey(QName(top))
+			if !ok {
+				if why, has := exceptions[key]; has {
+					ok = true
+					c.Note("%s: exception %s: %s", rule, key, why)
+				} else {
+					detail = fmt.Sprintf("%s may still hold an unexamined error when it is overwritten with the result of %s: an earlier failure is replaced by a later success", st.Addr.(*ssa.Alloc).Comment, describeValue(errLeaves(st.Val)[0]))
+				}
+			}
+			c.Ob(rule, fn, "an error variable is nil when it is overwritten by a call result", c.P.Pos(st.Pos()), ok, detail)
+		}
+	}
+	return n
+}
